@@ -79,6 +79,10 @@ type Contract struct {
 	Trusted       bool // extern/interface: assumed, not verified
 	Sig           *types.Signature
 	RecvNonNil    bool
+	CRLF          bool     // crlf-discipline: every raw append of non-constant bytes must be free of CR and LF
+	CRLFExempt    []string // source texts of append calls that are exempt (reported as not covered)
+	AppendsRaw    bool     // appends-raw: copies unneutralised bytes after its first parameter
+	ReplayGo      []string // hand-written reproductions (test bodies) tried when an obligation of this function fails
 	Pure          bool // trusted-pure: parameter names are not bound
 	Witnesses     []map[string]string // replay seeds: param -> Go literal (string or int)
 }
@@ -271,7 +275,7 @@ var clauseKeywords = map[string]bool{
 	"lemma": true, "requires": true, "ensures": true, "top-ensures": true, "modifies": true, "allocates": true,
 	"panics": true, "abstract": true, "nosafety": true, "loop": true, "invariant": true, "top-invariant": true,
 	"decreases": true, "assert": true, "alias": true, "props": true, "recvnonnil": true, "ghostset": true,
-	"end": true, "opaque": true, "witness": true, "trusted-pure": true,
+	"end": true, "opaque": true, "witness": true, "trusted-pure": true, "crlf-discipline": true, "crlf-exempt": true, "replay-go": true, "appends-raw": true,
 }
 
 // parseContractFile reads the //@ lines of one file.
@@ -430,6 +434,14 @@ func (p *contractParser) line(t string, no int) error {
 		c.RecvNonNil = true
 	case "alias":
 		c.ResultAlias = rest
+	case "appends-raw":
+		c.AppendsRaw = true
+	case "replay-go":
+		c.ReplayGo = append(c.ReplayGo, rest)
+	case "crlf-discipline":
+		c.CRLF = true
+	case "crlf-exempt":
+		c.CRLFExempt = append(c.CRLFExempt, strings.TrimSpace(rest))
 	case "witness":
 		// witness a = "text", n = 5
 		wm := map[string]string{}
